@@ -476,6 +476,36 @@ def seq_in_state(rel, state):
     raise ValueError(state)
 
 
+def seq_after_prelude(rel, state, prelude):
+    """a Sequence in wrapper state `state` with content `rel` on which the public operations of `prelude` (tuple format of
+    `_seq_step`) have then been run *on the same object*.  Returns (sequence, its content now, read through a copy).  The
+    oracle judges the operation under test against that content: on correct code an object's past is irrelevant; if an operation
+    leaves state behind (a flag, a cache, a memo), the past is part of the replayable input."""
+    s = seq_in_state(rel, state)
+    for op in prelude or []:
+        op = tuple(tuple(x) if isinstance(x, list) and x and not isinstance(x[0], (list, tuple)) and len(x) == 10 else x for x in op)
+        if op[0] in ("copy", "split"):
+            continue
+        try:
+            s, _ = _seq_step(s, op)
+        except CAUGHT:
+            pass
+    return s, content_of(s)
+
+
+def seq_after_prelude_obj(s, prelude):
+    """like seq_after_prelude, for an existing Sequence object"""
+    for op in prelude or []:
+        op = tuple(tuple(x) if isinstance(x, list) and x and not isinstance(x[0], (list, tuple)) and len(x) == 10 else x for x in op)
+        if op[0] in ("copy", "split"):
+            continue
+        try:
+            s, _ = _seq_step(s, op)
+        except CAUGHT:
+            pass
+    return s, content_of(s)
+
+
 def content_of(s):
     """the sequence's content read through a copy (so that reading does not refresh any view of `s` itself)"""
     return [from_real(m) for m in s.copy().rel._messages]
